@@ -116,11 +116,12 @@ def documented_raise(e, op, lens, target):
 
 
 def nan_flags(target, lens):
-    """Input classes the cumulative implementation is sensitive to: a (non-empty) partition with an all-NaN column /
-    whose last row holds a NaN."""
+    """Input classes the cumulative implementation is sensitive to: a partition with a column that has no valid
+    value (all NaN, or no rows) / a non-empty partition whose last row holds a NaN."""
     cuts = np.cumsum([0] + list(lens))
-    masks = [np.asarray(target.iloc[a:b].isna()).reshape(b - a, -1) for a, b in zip(cuts, cuts[1:]) if b > a]
-    return dict(allnan_part=any(m.all(axis=0).any() for m in masks), nan_tail=any(m[-1].any() for m in masks))
+    k = 1 if target.ndim == 1 else target.shape[1]
+    masks = [np.asarray(target.iloc[a:b].isna()).reshape(b - a, k) for a, b in zip(cuts, cuts[1:])]
+    return dict(novalid_part=any(m.all(axis=0).any() for m in masks), nan_tail=any(m[-1].any() for m in masks if len(m)))
 
 
 def check(spec):
@@ -190,6 +191,8 @@ def classes(spec):
             yield "center"
     if spec.get("nanruns"):
         yield "nan-runs"
+    if spec["partition"]["how"] == "bydivs" and 0 in C.piece_lengths(spec, F.build_pdf(spec)):
+        yield "empty-partition"
     b, a = overlap(op)
     n = max(_nparts(spec), 1)
     if max(b, a) > spec["nrows"] // n:
@@ -203,6 +206,9 @@ def case(draw):
     index_kinds = ("datetime_unique", "datetime") if timeop else ("range", "sorted_unique", "sorted_dups", "datetime", "datetime_unique")
     spec = draw(C.sorted_frame_spec(min_rows=2, max_rows=30, kinds=("float", "float", "float", "int", "key"), index_kinds=index_kinds, max_cols=3, p_bydivs=0.3, allow_cuts=False))
     n = spec["nrows"]
+    if spec["partition"]["how"] == "bydivs" and draw(st.integers(0, 4)) > 0:
+        # empty partitions (division ranges beyond the data) stay a low-probability stratum (sig flag empty_part)
+        spec["partition"].update(lo=0, hi=0, single_last=False)
     spec["nanruns"] = draw(st.lists(st.tuples(st.integers(0, n - 1), st.integers(1, 6)).map(list), max_size=2))
     if kind == "rolling":
         w = draw(st.sampled_from(["90min", "2h", "5h", "1D"])) if timeop else draw(st.integers(1, 8))
@@ -232,7 +238,7 @@ SUBCHECKS = [
         "window",
         check,
         strategy=lambda tier: case(),
-        n={"quick": 1600, "thorough": 30000},
+        n={"quick": 3000, "thorough": 40000},
         nontrivial=nontrivial,
         classes=classes,
         doc="rolling / cumulative / shift / diff / ffill / bfill / map_overlap on partitioned frames == pandas on the whole frame",
